@@ -18,7 +18,7 @@ func title(s string) string { return strings.ToUpper(s[:1]) + s[1:] }
 // gridFields lists every container context of element kind T.
 func gridFields(kind string, opt GridOptions) []Field {
 	var t Type
-	isPrim := kind != "GridEnum"
+	isPrim := kind != "GridEnum" && !strings.HasPrefix(kind, "Imp")
 	if isPrim {
 		t = Prim(kind)
 	} else {
@@ -153,4 +153,37 @@ func Grid(opt GridOptions) []File {
 		&Record{Kind: Struct, Name: "EndsInStrs", Fields: []Field{{Name: "a", Type: Prim("uint16")}, {Name: "ss", Type: Array(Prim("string"))}}},
 	)
 	return files
+}
+
+// GridImported is the grid of three enums (one-byte, default and eight-byte base) that live in a second, imported
+// file: under separate generation (the bebopc-go default) the importing package knows them by an alias only.
+func GridImported(opt GridOptions) File {
+	f := File{Enums: []Enum{
+		{Name: "ImpSmall", Base: "uint8", Imported: true, Options: []EnumOption{{Name: "ImpSmallA", Expr: "0"}, {Name: "ImpSmallB", Expr: "7"}, {Name: "ImpSmallC", Expr: "255"}}},
+		{Name: "ImpDef", Imported: true, Options: []EnumOption{{Name: "ImpDefA", Expr: "0"}, {Name: "ImpDefB", Expr: "1"}, {Name: "ImpDefC", Expr: "4294967295"}}},
+		{Name: "ImpBig", Base: "int64", Imported: true, Options: []EnumOption{{Name: "ImpBigA", Expr: "0"}, {Name: "ImpBigB", Expr: "-1"}, {Name: "ImpBigC", Expr: "9223372036854775807"}}},
+		{Name: "LocalEnum", Base: "uint16", Options: []EnumOption{{Name: "LocalEnumA", Expr: "0"}, {Name: "LocalEnumB", Expr: "9"}}},
+	}}
+	for ki, kind := range []string{"ImpSmall", "ImpDef", "ImpBig"} {
+		st := &Record{Kind: Struct, Name: "Gs" + kind, ReadOnly: ki%2 == 1, Fields: append([]Field{{Name: "lead", Type: Prim("uint8")}}, gridFields(kind, opt)...)}
+		msg := &Record{Kind: Message, Name: "Gm" + kind}
+		for i, fd := range gridFields(kind, opt) {
+			fd.Index = i + 1
+			msg.Fields = append(msg.Fields, fd)
+		}
+		ubm := &Record{Kind: Message, Name: "Gum" + kind}
+		for i, fd := range gridFields(kind, opt) {
+			fd.Index = 2*i + 1
+			ubm.Fields = append(ubm.Fields, fd)
+		}
+		un := &Record{Kind: Union, Name: "Gu" + kind, Branches: []Branch{
+			{Disc: 1, Rec: &Record{Kind: Struct, Name: "Gus" + kind, Fields: gridFields(kind, opt)}},
+			{Disc: 2, Rec: ubm},
+		}}
+		f.Records = append(f.Records, st, msg, un)
+	}
+	f.Records = append(f.Records, &Record{Kind: Struct, Name: "Pixel", Fields: []Field{
+		{Name: "alpha", Type: Prim("byte")}, {Name: "colour", Type: Named("ImpDef")}, {Name: "local", Type: Named("LocalEnum")}, {Name: "big", Type: Named("ImpBig")},
+	}})
+	return f
 }
